@@ -151,7 +151,7 @@ def pow(a,b):
       # b(r) * a(r)**(b(r)-1) * a'(r): needs neither the logarithm of the base nor a division by it,
       # so a base that is zero or negative is fine when the exponent does not vary.
       value = 0.0
-      if da != 0.0:
+      if br*da != 0.0:
         value = br * ar**(br-1) * da
       if db != 0.0:
         value += potential(r) * db * math.log(ar)
